@@ -530,3 +530,25 @@ class Cfg:
     def dominates(self, a, b):
         d = self.dominators()
         return b in d and a in d[b]
+
+
+def small_literals(nodes, cap=8):
+    """integer literals 2..cap that a piece of code compares / indexes / counts with: a model of its input should contain structures
+    at least one larger than the largest of them"""
+    out = set()
+    for n in walk(nodes):
+        cands = []
+        if n[0] == "binary" and n[1] in ("==", "!=", "<", "<=", ">", ">=", "%", "-", "+"):
+            cands = [n[2], n[3]]
+        elif n[0] == "index":
+            cands = [n[2]]
+        elif n[0] == "mcall" and n[2] in ("nth", "skip", "take", "get", "split_at", "chunks", "windows", "step_by") and n[3]:
+            cands = [n[3][0]]
+        elif n[0] in ("p_lit", "p_range"):
+            cands = [n]
+        for c in cands:
+            if is_node(c):
+                v = int_of(c) if c[0] in ("lit", "p_lit", "cast", "unary") else None
+                if v is not None and 2 <= v <= cap:
+                    out.add(v)
+    return out
